@@ -84,9 +84,9 @@ fn params(ps: &Params) -> Sx {
 }
 
 fn def(d: &Def) -> Sx {
-    let ps = match &d.sig {
-        Signature::Subr(s) => vec![params(&s.params)],
-        _ => vec![],
+    let (ps, decos) = match &d.sig {
+        Signature::Subr(s) => (vec![params(&s.params)], s.decorators.iter().map(expr).collect()),
+        _ => (vec![], vec![]),
     };
     l(vec![
         loc(d.sig.loc()),
@@ -96,6 +96,7 @@ fn def(d: &Def) -> Sx {
         b(d.sig.vis().is_public()),
         Sx::from_str_cp(&d.sig.inspect()[..]),
         l(ps),
+        l(decos),
         block(d.body.block.iter()),
         b(d.body.block.last().map(|c| c.t().is_procedure()).unwrap_or(false)),
     ])
